@@ -88,6 +88,17 @@ CLAIMED = {
             "values derive only from cipher outputs, CSPRNG values, kids or public exports; dump_pem_key / as_bytes map private False->public. "
             "Not decided: absence of private octets in raw/hex/base64 form inside library outputs (value level).",
             "pyca public_bytes / public_numbers expose no private parameter", "5/C12"),
+    "C16": ("static analysis: exception-flow analysis (explicit raise / assert / external throws table, handler-sensitive, fixed point over the "
+            "call graph) plus typestate rules for untrusted JSON and machine-checked assert justifications",
+            "An exact rule catalogue, not a proof of the universal statement. Decides over the ~190 functions reachable from the consume "
+            "entries: (E1) every exception class the frozen throws table assigns to an external call (303 sites) is converted by a handler or "
+            "is a JoseError / ValueError subclass - incl. range-guard recognition for PBKDF2 iterations; (E2) decoded headers are checked to be "
+            "dicts before use, crit is type-checked before iteration, algorithm names are str-checked in the gates and present before lookup, "
+            "table lookups keyed by JWK / header members are membership-guarded; (E3) each of the 27 consume-reachable asserts has a "
+            "machine-checked justification (required header parameter, closed class family over the folded models, field set on every "
+            "constructing path, literal operations) or a named whitelist entry; (E4) check_key_type precedes verification / CEK recovery; (E5) "
+            "explicit raises are allowed classes, stubs are shown unreachable. Not decided: states no rule models.",
+            "throws table jv/spec/throws.py (probed); well-formed keys and registries; mypy receiver types", "5/C16"),
 }
 
 NOT_YET = "check not built yet (build in progress; see DESIGN.md section 5 for the planned rules)"
